@@ -31,7 +31,7 @@ type c18Params struct {
 func (c18) ID() string    { return "C18" }
 func (c18) Level() string { return "fault_enumeration" }
 func (c18) Rule() string {
-	return "enumerates hostile ClientHello behaviours against real DTLCP servers whose private keys are counting wrappers: repeated cookie-less hellos; a valid cookie presented with each covered field changed (version, random, session id, cipher suites, compression methods); every single-byte change (two masks), truncation, extension and removal of a valid cookie; the cookie replayed from another source address (second server connection with the same secret) and to a server with a different / per-connection random secret; positive controls (same address, hello and secret on a fresh server connection must be accepted and then touch the keys); x configured secret or none x ECC and ECDHE suite. distinct = distinct (variant, parameters); non-trivial = the server answered the hello under test"
+	return "enumerates hostile ClientHello behaviours against real DTLCP servers whose private keys are counting wrappers: repeated cookie-less hellos; a cookie-less hello naming a session the server has cached (its suite offered or not); a valid cookie presented with each covered field changed (version, random, session id, cipher suites, compression methods); every single-byte change (two masks), truncation, extension and removal of a valid cookie; the cookie replayed from another source address (second server connection with the same secret) and to a server with a different / per-connection random secret (no secret given as nil or as an empty slice); positive controls (same address, hello and secret on a fresh server connection must be accepted and then touch the keys); x configured secret or none x ECC and ECDHE suite. distinct = distinct (variant, parameters); non-trivial = the server answered the hello under test"
 }
 func (c18) Components() (real, stub []string) {
 	return []string{"dtlcp server (instrumented): cookie generation / verification, cookie loop, certificate selection, key use"},
@@ -69,6 +69,14 @@ func c18Cases() []c18Params {
 				add("cookie-zero", 0, 0)
 				add("other-address", 0, 0)
 				add("other-server", 0, 0)
+				if !secret {
+					// "no secret configured" given as an empty, non-nil slice: still one random secret per connection
+					add("other-server-empty-secret", 0, 0)
+				}
+				// a cookie-less hello that names a session the server has cached (I = 0: offering the session's
+				// suite, 1: not offering it): resumption or not, nothing but a HelloVerifyRequest comes back
+				add("cookieless-session", 0, 0)
+				add("cookieless-session", 1, 0)
 			}
 		}
 	})
@@ -121,12 +129,44 @@ func (c18) Run(c *Case, src *vs.Src) *Result {
 	}
 	r.Sample = p
 	sigp := fmt.Sprintf("C18 %s secret=%v", p.Variant, p.Secret)
+	var cachedID []byte
+	var sharedCache dtlcp.SessionCache
+	if p.Variant == "cookieless-session" {
+		// an honest full handshake first, so that the servers' shared cache holds a session
+		w0 := NewWorld(c.Seed+1, src)
+		w0.K.MaxElapsed = 30 * time.Second
+		env0 := NewEnv(w0)
+		env0.DCaches["s"] = dtlcp.NewLRUSessionCache(8)
+		sharedCache = env0.DCaches["s"]
+		cc0 := &EPConf{Suites: []uint16{p.Suite}, ServerName: "server.test", Certs: []string{"client_sig", "client_enc"}}
+		sc0 := &EPConf{Suites: []uint16{p.Suite}, Certs: []string{"server_sig", "server_enc"}, ClientCAs: []string{"ca1"}, Cache: "s"}
+		pair0 := NewPair(DTLCP, env0, cc0, sc0, "c0", "s0", "10.0.0.1:4000", "server0:443")
+		out0 := &HSOut{}
+		SpawnHandshakeEcho(w0, pair0, EchoOpts{}, out0, "")
+		reason0, _ := w0.Run()
+		w0.Finish(r, sigp)
+		_, cachedID, _, _ = c10Hellos(true, pair0.WireUnits(true))
+		if reason0 != vs.Done || out0.CErr != nil || out0.SErr != nil || len(cachedID) == 0 {
+			r.Violate("setup", sigp+" setup-failed", "the handshake that fills the server's session cache failed: %s %v %v", reason0, out0.CErr, out0.SErr)
+			return r
+		}
+	}
 	w := NewWorld(c.Seed, src)
 	w.K.MaxElapsed = 60 * time.Second
 	env := NewEnv(w)
+	if sharedCache != nil {
+		env.DCaches["s"] = sharedCache
+	}
 	net := simnet.NewNet()
 	mkServer := func(name string, local, remote simnet.Addr, secret string) (*dtlcp.Conn, *simnet.PacketConn) {
 		sc := &EPConf{Suites: []uint16{p.Suite}, Certs: []string{"server_sig", "server_enc"}, ClientCAs: []string{"ca1"}, WrapKeys: true, CookieSecret: secret}
+		if p.Variant == "other-server-empty-secret" {
+			sc.CookieSecretEmpty = true
+		}
+		if cachedID != nil {
+			sc.Cache = "s"
+			sc.Suites = []uint16{p.Suite, ECC_CBC}
+		}
 		sp := net.Listen(local, simnet.DirS2C)
 		return dtlcp.Server(sp, remote, sc.BuildDTLCP(env, name)), sp
 	}
@@ -189,6 +229,12 @@ func (c18) Run(c *Case, src *vs.Src) *Result {
 			sp2.Close()
 		}()
 		h := baseHello(c1.p)
+		if cachedID != nil {
+			h.SessionID = cachedID
+			if p.I == 1 {
+				h.Suites = []uint16{ECC_CBC} // the session's suite is not offered: the server will not resume
+			}
+		}
 		// step 1: cookie-less hello(s)
 		n := 1
 		if p.Variant == "cookieless-repeat" {
@@ -234,7 +280,7 @@ func (c18) Run(c *Case, src *vs.Src) *Result {
 			}
 			return
 		}
-		if p.Variant == "cookieless-repeat" {
+		if p.Variant == "cookieless-repeat" || p.Variant == "cookieless-session" {
 			return
 		}
 		// step 2: the hello under test, with a cookie
@@ -268,7 +314,7 @@ func (c18) Run(c *Case, src *vs.Src) *Result {
 			h2.Cookie = make([]byte, len(cookie))
 		case "other-address":
 			target = c2 // same hello and cookie, sent from address B to a server connection bound to B
-		case "other-server":
+		case "other-server", "other-server-empty-secret":
 			target = c2 // same address A, second server connection: same configured secret => stateless cookie valid
 			mustAccept = p.Secret && secret1 == secret2
 		}
@@ -285,7 +331,7 @@ func (c18) Run(c *Case, src *vs.Src) *Result {
 			verdicts = append(verdicts, fmt.Sprintf("control: a valid cookie was not accepted (server answered %v)", kinds))
 		case mustAccept && env.KeyOps.Total() == before:
 			verdicts = append(verdicts, "control: accepted but the wrapped keys were never used (counter not wired?)")
-		case !mustAccept && p.Variant == "other-server" && !p.Secret:
+		case !mustAccept && (p.Variant == "other-server" || p.Variant == "other-server-empty-secret") && !p.Secret:
 			// per-connection random secrets: the other server must not honour the cookie
 			if accepted {
 				verdicts = append(verdicts, "a cookie issued by one server connection was accepted by another although no secret is configured")
